@@ -17,6 +17,7 @@
            ERR <what>                                                                                              */
 #include "hx.h"
 #include <stdarg.h>
+#include <unistd.h>
 #include "flatcc/flatcc_builder.h"
 #include "flatcc/flatcc_refmap.h"
 #include "c18_clone_builder.h"
@@ -407,7 +408,9 @@ int main(void)
             tok[n++] = p; while (*p && *p != ' ' && *p != '\n' && *p != '\r') ++p;
             if (*p) *p++ = 0;
         }
+        alarm(10);   /* a reference map whose probe loop does not end must not hang the check */
         if (n >= 5 && !strcmp(tok[0], "run")) run(tok, (int)n); else printf("BAD\n");
+        alarm(0);
         fflush(stdout);
     }
     return 0;
